@@ -142,7 +142,7 @@ def run(symbols, comments=(), nsname='Foo', version='1.0', identifier_prefixes=N
     if includes:
         tr.set_include_paths(list(include_paths) if include_paths else [STUBGIR])
     for inc in includes:
-        tr.register_include(ast.Include(inc, '1.0' if inc in ('Mid', 'Base', 'FooExt', 'Dep') else '2.0') if isinstance(inc, str) else inc)
+        tr.register_include(ast.Include(inc, '1.0' if inc in ('Mid', 'Base', 'FooExt', 'Dep', 'Nib') else '2.0') if isinstance(inc, str) else inc)
     blocks = GtkDocCommentBlockParser().parse_comment_blocks(list(comments))
     tr.parse([sym(s) if not isinstance(s, SourceSymbol) else s for s in symbols])
     if dump is not None:
